@@ -63,8 +63,9 @@ def size_field_case(ctx, total, parts, reqs, pend):
 def check_case(ctx, ld, case, reqs, pend):
     entries, common = case["entries"], case["common"]
     ctx.case(X.small_desc(case), nontrivial=bool(entries))
-    sv = X.impl_save(entries, common, case.get("layout"))
+    sv = X.impl_save(entries, common, case.get("layout"), case.get("handle"))
     ctx.hit("rowid_layout:%s" % (case.get("layout") or "contiguous"))
+    ctx.hit("file_handle:%s" % (case.get("handle") or "TemporaryFile"))
     if sv[0] != "ok":
         ctx.oracle_fail("save raised %s" % sv[1], X.small_desc(case), cls="C11-save-raises")
         return
@@ -142,6 +143,9 @@ def run(ctx):
         for case in X.exhaustive_cases():
             if len(case["entries"]) <= 1 or ctx.scale > 1 or ctx.rng.random() < 0.25:
                 check_case(ctx, ld, case, reqs, pend)
+        # the file handle the caller passes: write-only, append (new file), append+read, update, unbuffered
+        for hd in ("wb", "ab", "a+b", "r+b", "unbuffered"):
+            check_case(ctx, ld, {"entries": [[[1], [0, 2, 5]], [[300], [1, 4, X.U32]]], "common": 0, "arity": 1, "handle": hd}, reqs, pend)
         # row-id arrays that are non-contiguous views (a slice with a step, a matrix column, a reversed view)
         for lay in ("stride2", "column", "backwards"):
             for arity in (1, 2):
@@ -185,5 +189,5 @@ def replay(ctx, rep):
         return not c2.oracle_failures
     if "long" in c:
         c = dict(c, entries=X.expand_long(c))
-    sv = X.impl_save(c["entries"], c["common"], c.get("layout"))
+    sv = X.impl_save(c["entries"], c["common"], c.get("layout"), c.get("handle"))
     return sv[0] == "ok" and sv[1] == X.spec_encode(c["entries"], c["common"])
